@@ -259,6 +259,18 @@ func classifyMapRange(p *Prog, mr mapRange) (string, string) {
 							derived = true
 						}
 					}
+					// a function literal called on the spot takes the key through a captured variable
+					if mc, ok := cl.Call.Value.(*ssa.MakeClosure); ok {
+						for _, bnd := range mc.Bindings {
+							if refs := bnd.Referrers(); refs != nil {
+								for _, r := range *refs {
+									if st, ok := r.(*ssa.Store); ok && st.Addr == bnd && p.backSlice(st.Val, 0)[kExt] {
+										derived = true
+									}
+								}
+							}
+						}
+					}
 				}
 				if !derived {
 					continue
@@ -1644,12 +1656,54 @@ func allUsesInside(al *ssa.Alloc, body map[*ssa.BasicBlock]bool) bool {
 					return false
 				}
 			case *ssa.MakeClosure:
-				return false
+				// a function literal called on the spot that only reads the variable keeps nothing
+				if !calledOnTheSpotReadingOnly(x, v) {
+					return false
+				}
 			}
 		}
 		return true
 	}
 	return ok(al)
+}
+
+// calledOnTheSpotReadingOnly: the closure's only use is being called, and inside it the captured cell is only loaded.
+func calledOnTheSpotReadingOnly(mc *ssa.MakeClosure, cell ssa.Value) bool {
+	refs := mc.Referrers()
+	if refs == nil {
+		return false
+	}
+	for _, r := range *refs {
+		if _, dbg := r.(*ssa.DebugRef); dbg {
+			continue
+		}
+		cl, ok := r.(*ssa.Call)
+		if !ok || cl.Call.Value != ssa.Value(mc) {
+			return false
+		}
+	}
+	fn, ok := mc.Fn.(*ssa.Function)
+	if !ok {
+		return false
+	}
+	for i, b := range mc.Bindings {
+		if b != cell || i >= len(fn.FreeVars) {
+			continue
+		}
+		fr := fn.FreeVars[i].Referrers()
+		if fr == nil {
+			continue
+		}
+		for _, r := range *fr {
+			if _, dbg := r.(*ssa.DebugRef); dbg {
+				continue
+			}
+			if u, ok := r.(*ssa.UnOp); !ok || u.Op != token.MUL {
+				return false
+			}
+		}
+	}
+	return true
 }
 
 // dominatedByBody: the block is an exit arm hanging off a (non-header) body
